@@ -95,7 +95,10 @@ func init() {
 	frozenSites := map[string]string{
 		bcast + "(*ltBroadcast).buildPendList:it.Value.(*pendBlock)":         "pendBlockList only ever receives *pendBlock values (PushBack in addLtBlock is the single producer)",
 		bcast + "(*ltBroadcast).handleBlockReqList:it.Value.(*blockRequest)": "blockRequestList only ever receives *blockRequest values (PushBack in addBlockRequest is the single producer)",
-		dl + "(*Protocol).availbTask:128 / len(ts)":                           "every call site passes a slice it has just tested to be non-empty (checked below)",
+		bcast + "(*ltBroadcast).buildPendBlock:pd.sTxHashes[i]":          "i ranges over pd.block.Txs, and a pending block only exists with len(sTxHashes) == TxCount == len(block.Txs) (addLtBlock's admission test, checked below)",
+		bcast + "(*ltBroadcast).buildPendBlock:pd.block.GetTxs()[index]": "index is an element of pd.notExistTxIndices, which this function refills (after resetting it) only with range indices over pd.block.Txs (checked below)",
+		bcast + "(*ltBroadcast).handleBlockReq:details.GetItems()[0]":     "reply of the local blockchain module to GetBlocks with Start == End: exactly one item or an error (ProcGetBlockDetailsMsg); not peer-controlled data",
+		dl + "(*Protocol).availbTask:128 / len(ts)":                          "every call site passes a slice it has just tested to be non-empty (checked below)",
 		dl + "tasks.Remove:t[:task.Index]":                                    "behind `task.Index+1 > t.Size()` → return (checked below); Index is a range index, never negative",
 		dl + "tasks.Remove:t[task.Index + 1:]":                                "behind `task.Index+1 > t.Size()` → return (checked below)",
 		dl + "tasks.Less:t[a]":                                                "sort.Interface method: only sort.Sort calls it, with indices below Len() (checked below)",
@@ -117,9 +120,7 @@ func init() {
 	register(&core.Property{
 		ID:       "C33",
 		Title:    "Peer input can never crash the node",
-		Packages: []string{"system/p2p/dht/protocol/broadcast", "system/p2p/dht/protocol/download", "system/p2p/dht/protocol"},
-		Hold:     "R33b/R33c fire on the light-block reconstruction (unchecked indices in a goroutine without recover, allocation sized by the peer's TxCount); reproduction and repair in progress",
-		Explanation: "Decides R33a-R33c for the broadcast and download protocols: (a) the pub-sub receive path runs under a leading deferred recover and the functions treated as 'recovered' are called from nowhere else; every libp2p stream handler is installed through RegisterStreamHandler, which wraps it in HandlerWithClose (leading deferred recover); " +
+		Packages: []string{"system/p2p/dht/protocol/broadcast", "system/p2p/dht/protocol/download", "system/p2p/dht/protocol"},		Explanation: "Decides R33a-R33c for the broadcast and download protocols: (a) the pub-sub receive path runs under a leading deferred recover and the functions treated as 'recovered' are called from nowhere else; every libp2p stream handler is installed through RegisterStreamHandler, which wraps it in HandlerWithClose (leading deferred recover); " +
 			"(b) in the goroutines that are NOT under a recover frame and touch peer-derived data (pending light-block loop, block-request loop, pub-sub decoding and validators, block download workers) every slice/index expression, single-value type assertion, explicit panic and integer division is enumerated and must be discharged by a recognised bounds guard; " +
 			"(c) no allocation is sized by a value that is neither the length of an existing value nor bounded from above (also inside recovered code: running out of memory is fatal and cannot be recovered).",
 		NotCovered:  "nil dereferences of internal structures; robustness of the libraries called (libp2p, snappy, protobuf, queue client) and of the other p2p protocol packages (peer, p2pstore, …); the gossip p2p implementation; that dropped input is also penalised.",
@@ -214,6 +215,58 @@ func init() {
 				}
 				core.MayPanic{Funcs: unrecovered, Known: known, TrustFn: outsideTrust, SkipNilDeref: true, CheckAlloc: true, Min: 15,
 					IndexOK: frozenSites}.Check(r)
+				// the frozen light-block sites: the invariants they rely on
+				core.HasAtom{Fn: bcast + "(*ltBroadcast).addLtBlock", Name: "declared tx count equals the number of short hashes (else the light block is dropped)",
+					L: core.MayBeFromCall(0, "types.(*Header).GetTxCount"), R: func(c *core.Ctx, e ast.Expr) bool {
+						found := false
+						ast.Inspect(e, func(x ast.Node) bool {
+							if call, ok := x.(*ast.CallExpr); ok && core.IsBuiltinCall(c.Info, call, "len") && len(call.Args) == 1 && core.CallsAny("types.(*LightBlock).GetSTxHashes")(c, call.Args[0]) {
+								found = true
+							}
+							return true
+						})
+						return found
+					}, Rel: token.NEQ}.Check(r)
+				core.WhoMayCall{Targets: []string{bcast + "ltBroadcast.pendBlockList"}, Allowed: []string{bcast + "initLightBroadcast", bcast + "(*ltBroadcast).addLtBlock", bcast + "(*ltBroadcast).buildPendList"}, Min: 3}.Check(r)
+				if f := r.Fn(bcast + "(*ltBroadcast).buildPendBlock"); f != nil {
+					c := f.Ctx()
+					label := f.Name + ": notExistTxIndices only holds range indices over the block's tx slice"
+					good, bad := 0, ""
+					ast.Inspect(f.Body(), func(x ast.Node) bool {
+						as, ok := x.(*ast.AssignStmt)
+						if !ok || len(as.Lhs) != 1 || len(as.Rhs) != 1 || !core.IsObj(bcast + "pendBlock.notExistTxIndices")(c, as.Lhs[0]) {
+							return true
+						}
+						switch rhs := ast.Unparen(as.Rhs[0]).(type) {
+						case *ast.SliceExpr: // reset: x[:0]
+							if rhs.Low == nil && rhs.High != nil && core.IsConstInt(0)(c, rhs.High) {
+								good++
+								return true
+							}
+						case *ast.CallExpr: // append(x, i) with i the index of `range pd.block.GetTxs()`
+							if core.IsBuiltinCall(c.Info, rhs, "append") && len(rhs.Args) == 2 {
+								if id, ok := ast.Unparen(rhs.Args[1]).(*ast.Ident); ok {
+									for p := r.W.Parent(as); p != nil; p = r.W.Parent(p) {
+										if rs, ok := p.(*ast.RangeStmt); ok {
+											if k, ok := rs.Key.(*ast.Ident); ok && c.Info.ObjectOf(k) == c.Info.ObjectOf(id) && core.CallsAny("types.(*Block).GetTxs")(c, rs.X) && core.Mentions(bcast + "pendBlock.block")(c, rs.X) {
+												good++
+												return true
+											}
+										}
+									}
+								}
+							}
+						}
+						bad = r.W.Pos(as.Pos()) + ": `" + core.ExprStr(as) + "`"
+						return true
+					})
+					if bad == "" && good >= 2 {
+						r.OK(label, r.W.Pos(f.Node().Pos()), "reset to [:0], then appended only with the index of `range pd.block.GetTxs()`")
+					} else {
+						r.Fail(label, r.W.Pos(f.Node().Pos()), fmt.Sprintf("recognised assignments: %d; other: %s", good, bad))
+					}
+				}
+				core.WhoMayCall{Targets: []string{bcast + "pendBlock.notExistTxIndices"}, Allowed: []string{bcast + "(*ltBroadcast).buildPendBlock", bcast + "(*ltBroadcast).addLtBlock"}, Min: 3}.Check(r)
 				// the frozen download sites: the guards they rely on
 				nonEmpty := core.CondGuard{Fact: "peers-non-empty", Match: func(c *core.Ctx, atom ast.Expr) (bool, bool) {
 					if op, ok := core.CmpAtom(c, atom, core.CallsAny(dl+"tasks.Size"), core.IsConstInt(0)); ok {
